@@ -88,6 +88,21 @@ func (p *Peer) Pump() {
 	}
 }
 
+// PumpWait waits up to d for one more packet and files it into the inbox.
+func (p *Peer) PumpWait(d time.Duration) {
+	if p.EOF {
+		return
+	}
+	pkt, ok, err := p.C.ReceiveTimeout(d)
+	if err != nil {
+		p.EOF, p.EOFErr = true, err
+		return
+	}
+	if ok {
+		p.handle(pkt)
+	}
+}
+
 // WaitFor pumps until pred holds for a packet at index >= from of the inbox;
 // it returns that index or -1 when the ceiling expired or the connection ended.
 func (p *Peer) WaitFor(from int, pred func(packet.Generic) bool, ceiling time.Duration) int {
